@@ -640,7 +640,10 @@ import gen_c18 as _gen_c18
 
 _AST_MOD = "Proofs.AstUrisEquiv"
 # ast_uris_equiv = ast_normalize_win_path_equiv /\ ast_to_fs_path_equiv /\ ast_uri_scheme_equiv
-C18.obligations = list(C18.obligations) + [_AST_MOD + "::" + n for n in ("ast_uris_equiv", "ast_uris_example")]
+# ast_uris2_equiv = ast_from_fs_path_equiv /\ ast_urlunparse_equiv /\ ast_uri_with_equiv
+# (urllib.parse.quote / urllib.parse.urlunparse, and urlparse for uri_with: oracles)
+C18.obligations = list(C18.obligations) + [_AST_MOD + "::" + n for n in (
+    "ast_uris_equiv", "ast_uris_example", "ast_uris2_equiv", "ast_from_fs_path_example", "ast_uri_with_example")]
 C18.coq_targets = list(C18.coq_targets) + ["Proofs/AstUrisEquiv.vo"]
 C18.trusted_base = list(C18.trusted_base) + [
     "translator tie: harness/gen_ast.py (Python ast -> PyMini, fail-closed) and the PyMini semantics "
